@@ -91,6 +91,7 @@ class IsoDepInitiator(object):
             data = pfb + command[offset:offset+self.miu]
 
             wait = timeout
+            n_retransmit = 0
             for i in itertools.count(start=1):  # pragma: no branch
                 try:
                     data = self.clf.exchange(data, wait)
@@ -98,6 +99,10 @@ class IsoDepInitiator(object):
                     if len(data) == 0:
                         raise nfc.clf.TransmissionError
                     if data[0] == 0xA2 | (~self.pni & 1):
+                        n_retransmit += 1
+                        if n_retransmit > self.n_retry_nak:
+                            log.error("ISO-DEP protocol error: repeated ack")
+                            raise Type4TagCommandError(nfc.tag.PROTOCOL_ERROR)
                         log.debug("ISO-DEP retransmit after ack")
                         data = pfb + command[offset:offset+self.miu]
                         continue
